@@ -156,7 +156,13 @@ def patch_variants():
 
 def run(only=None, root='/repo', jobs=16, verbose=False, quiet=False):
     t0 = time.time()
-    allv = list(VARIANTS) + patch_variants()
+    pv = patch_variants()
+    skip = os.environ.get('VT_SELFTEST_SKIP', '')     # 'twins' / 'seeds' / 'twins,seeds' (development aid)
+    if 'twins' in skip:
+        pv = [v for v in pv if not v['id'].startswith('twin:')]
+    if 'seeds' in skip:
+        pv = [v for v in pv if not v['id'].startswith('seed:')]
+    allv = list(VARIANTS) + pv
     todo = [v for v in allv if only is None or only.upper() in v['props']]
     if only is not None:
         todo = [dict(v, props=[only.upper()]) for v in todo]
